@@ -83,7 +83,7 @@ type rgOutcome struct {
 	header *ssa.BasicBlock
 }
 
-func rangeEval(c rc, fn *ssa.Function, a []int64) (out rgOutcome, ok bool, why string) {
+func rangeEval(c rc, fn *ssa.Function, a []int64, scale int64) (out rgOutcome, ok bool, why string) {
 	if len(fn.Params) != 1 {
 		return out, false, "Range no longer takes one variadic parameter"
 	}
@@ -101,12 +101,17 @@ func rangeEval(c rc, fn *ssa.Function, a []int64) (out rgOutcome, ok bool, why s
 			if k.Value == nil {
 				return rgVal{kind: 3}, true
 			}
+			sc := int64(1)
+			if od2Dense(k.Type()) {
+				sc = scale // a constant in the units of the arguments
+			}
 			switch k.Value.Kind() {
 			case constant.Int:
 				n, exact := constant.Int64Val(k.Value)
-				return rgVal{n: n}, exact
+				return rgVal{n: n * sc}, exact
 			case constant.Float:
 				f, _ := constant.Float64Val(k.Value)
+				f *= float64(sc)
 				if f == float64(int64(f)) {
 					return rgVal{n: int64(f)}, true
 				}
@@ -479,7 +484,21 @@ func checkRange(c rc) {
 		}
 		return x
 	}
-	reps := []int64{-3, -2, -1, 0, 1, 2, 3}
+	// Range is generic over Number, a dense order when T is a float type: the
+	// representatives are in half units (every constant of type T in the body is
+	// doubled), so that values strictly between 0 and 1 are represented
+	const scale = 2
+	reps := []int64{-6, -5, -4, -3, -2, -1, 0, 1, 2, 3, 4, 5, 6}
+	show := func(a []int64) string {
+		out := "["
+		for i, x := range a {
+			if i > 0 {
+				out += " "
+			}
+			out += fmt.Sprint(float64(x) / scale)
+		}
+		return out + "]"
+	}
 	bad := 0
 	und := false
 	headers := map[*ssa.BasicBlock]bool{}
@@ -487,7 +506,7 @@ func checkRange(c rc) {
 		if und {
 			return
 		}
-		got, ok, why := rangeEval(c, fn, a)
+		got, ok, why := rangeEval(c, fn, a, scale)
 		if !ok {
 			und = true
 			c.und("OD2", name, "argument handling is comparison-only", c.fpos(fn), "the part of Range before its loops is no longer built from comparisons, selection and comparison-only helpers ("+why+"); its table cannot be computed")
@@ -498,9 +517,9 @@ func checkRange(c rc) {
 		wantErr := false
 		switch len(a) {
 		case 1:
-			start, step, end = 0, 1, a[0]
+			start, step, end = 0, scale, a[0]
 		case 2:
-			start, step, end = a[0], 1, a[1]
+			start, step, end = a[0], scale, a[1]
 		case 3:
 			start, step, end = a[0], a[1], a[2]
 			wantErr = (start > end && end > 0) || step == 0 || (step < 0 && end > start)
@@ -532,7 +551,7 @@ func checkRange(c rc) {
 					reason = fmt.Sprintf("must run the %s loop (ascending exactly when end > 0)", map[bool]string{true: "ascending", false: "descending"}[asc])
 				} else if got.init != start || got.bound != end {
 					okV = false
-					reason = fmt.Sprintf("must start at %d and stop before %d, the loop starts at %d and tests against %d", start, end, got.init, got.bound)
+					reason = fmt.Sprintf("must start at %v and stop before %v, the loop starts at %v and tests against %v", float64(start)/scale, float64(end)/scale, float64(got.init)/scale, float64(got.bound)/scale)
 				} else if runs {
 					want := abs(step)
 					if !asc {
@@ -540,7 +559,7 @@ func checkRange(c rc) {
 					}
 					if !got.dKnown || got.d != want {
 						okV = false
-						reason = fmt.Sprintf("must move by |step| toward end (%+d per iteration), the loop moves by %+d", want, got.d)
+						reason = fmt.Sprintf("must move by |step| toward end (%+v per iteration), the loop moves by %+v", float64(want)/scale, float64(got.d)/scale)
 					}
 				}
 			}
@@ -549,7 +568,7 @@ func checkRange(c rc) {
 		if !okV {
 			bad++
 			if bad <= 2 {
-				c.r.Violation(coreDiag("OD2", name, "argument table", c.fpos(fn), fmt.Sprintf("Range called with arguments ordered like %v %s", a, reason)))
+				c.r.Violation(coreDiag("OD2", name, "argument table", c.fpos(fn), fmt.Sprintf("Range called with arguments ordered like %s %s", show(a), reason)))
 			}
 		}
 	}
